@@ -11,7 +11,13 @@ TInit  == l = 1 /\ GInit({}, {})
 TStart == Is("Init") /\ tree' = PairSet(Ev.files) /\ generated' = ToSet(Ev.generated) /\ written' = {} /\ passes' = 0 /\ Adv
 TPass  == Is("Pass") /\ Pass(PairSet(Ev.files), ToSet(Ev.written), ToSet(Ev.failed)) /\ Adv
 TEnd   == Is("End") /\ NoOrphans /\ passes >= 1 /\ Adv /\ UNCHANGED gvars
-TNext  == TStart \/ TPass \/ TEnd
+\* scratch scenarios run with the generators of the working tree:
+\*  Shrink  - a directive whose output became empty: regenerating on top of the old output must leave exactly the files (name,
+\*            digest) a generation from a clean directory produces - no generated file without a directive that produces it;
+\*  Repeat  - the same scratch package generated several times (alternating GOMAXPROCS): every run writes the same bytes.
+TShrink == Is("Shrink") /\ PairSet(Ev.ontop) = PairSet(Ev.clean) /\ Adv /\ UNCHANGED gvars
+TRepeat == Is("Repeat") /\ Ev.ok /\ Cardinality(ToSet(Ev.digests)) = 1 /\ Adv /\ UNCHANGED gvars
+TNext  == TStart \/ TPass \/ TEnd \/ TShrink \/ TRepeat
 TSpec  == TInit /\ [][TNext]_<<gvars, l>>
 HighWater == TLCSet(1, IF TLCGet(1) < l THEN l ELSE TLCGet(1))
 Accepted == /\ PrintT(<<"HIGHWATER", TLCGet(1), Len(Trace)>>)
